@@ -226,7 +226,7 @@ func (k *KeyFormat) Encode(values ...any) []byte {
 // *NOTE:* If decoding fails for one of the values, previous values
 // will be modified.
 func (k *KeyFormat) Decode(data []byte, values ...any) bool {
-	if data[0] != k.prefix {
+	if len(data) == 0 || data[0] != k.prefix {
 		return false
 	}
 
@@ -234,7 +234,9 @@ func (k *KeyFormat) Decode(data []byte, values ...any) bool {
 		panic("key format: number of values greater than layout")
 	}
 	if len(data) < k.Size() {
-		panic("key format: malformed input")
+		// Too short to be a key of this format (keys may come from untrusted sources, e.g.
+		// runtime-produced I/O trees), treat it like any other non-matching key.
+		return false
 	}
 
 	offset := 1
